@@ -66,20 +66,23 @@ Definition veqb (a b : value) : bool :=
   Z.eqb (v_xp a) (v_xp b) && Z.eqb (v_yp a) (v_yp b) && Z.eqb (v_xa a) (v_xa b) && Z.eqb (v_ya a) (v_ya b).
 
 (* ---- lookup flags and GDEF -------------------------------------------------------------- *)
-(* f_filter: UseMarkFilteringSet, with the set resolved to its glyphs *)
+(* f_filter: UseMarkFilteringSet, f_mattach: MarkAttachmentType, each with its class resolved to glyphs *)
 Record lflag := mkF { f_rtl : bool; f_ibase : bool; f_ilig : bool; f_imark : bool;
-                      f_filter : option (list glyph) }.
-Definition flag0 : lflag := mkF false false false false None.
+                      f_filter : option (list glyph); f_mattach : option (list glyph) }.
+Definition flag0 : lflag := mkF false false false false None None.
 
-(* LookupFlagInfo ==: the flag bits and the id of the filter set; ids are per distinct glyph SET *)
+(* LookupFlagInfo ==: the flag bits (the mark attachment class id among them) and the id of the filter
+   set; both ids are per distinct glyph SET *)
+Definition oset_eqb (a b : option (list glyph)) : bool :=
+  match a, b with
+  | None, None => true
+  | Some x, Some y => set_eqb x y
+  | _, _ => false
+  end.
 Definition flag_eqb (a b : lflag) : bool :=
   Bool.eqb (f_rtl a) (f_rtl b) && Bool.eqb (f_ibase a) (f_ibase b) && Bool.eqb (f_ilig a) (f_ilig b)
   && Bool.eqb (f_imark a) (f_imark b)
-  && match f_filter a, f_filter b with
-     | None, None => true
-     | Some x, Some y => set_eqb x y
-     | _, _ => false
-     end.
+  && oset_eqb (f_filter a) (f_filter b) && oset_eqb (f_mattach a) (f_mattach b).
 
 (* GDEF glyph class definition: 1 base, 2 ligature, 3 mark, 4 component; absent = 0 *)
 Definition gdef := list (glyph * N).
@@ -91,6 +94,7 @@ Definition skip (gd : gdef) (fl : lflag) (g : glyph) : bool :=
   | 1%N => f_ibase fl
   | 2%N => f_ilig fl
   | 3%N => f_imark fl || match f_filter fl with Some s => negb (mem g s) | None => false end
+                      || match f_mattach fl with Some s => negb (mem g s) | None => false end
   | _ => false
   end.
 
